@@ -341,8 +341,8 @@ theorem monitor_sound (tr : List Ev) (h : accepts 19 tr = true) :
     have := hall pre _ suf heq
     simp only [okEv] at this
     simp at this
-    obtain ⟨h1, h2⟩ := this
-    refine ⟨h1.2, ?_⟩
+    obtain ⟨_, h1, h2⟩ := this
+    refine ⟨h1, ?_⟩
     intro hf
     rcases h2 with h2 | h2
     · simp [hf] at h2
